@@ -281,6 +281,7 @@ def run_once(dataset, cfg: dict, chooser) -> dict:
         "blocked": s.blocked_at_end,
         "threads": len(s.threads),
         "divergence": s.divergence,
+        "horizon": s.horizon,
         "opens": info["opens_at_take"],
         "rand_points": itertools_mc.Holder.points,
         "sched_points": s.points,
@@ -294,6 +295,11 @@ def judge(cfg: dict, r: dict, want: list, sync_order: list, nshards: int):
     desc = (f"{cfg['iface']} shuffle={cfg['shuffle']} "
             f"file_parallelism={cfg.get('par')}" +
             (" (eager workers)" if cfg.get("workers_first") else ""))
+    if r.get("horizon"):
+        bad.append(("C14", "horizon",
+                    f"{desc}: the execution did not come to rest within the "
+                    f"horizon of scheduling points"))
+        return bad
     if r["deadlock"]:
         bad.append(("C02", "deadlock",
                     f"{desc}: deadlock, blocked={r['blocked']}"))
